@@ -1083,6 +1083,16 @@ class Interp(object):
             raise Undecided('index %r of %r' % (idx, v))
         if isinstance(v, Ite):
             return self.merge(v.c, self.getindex(st, v.a, idx), self.getindex(st, v.b, idx))
+        if isinstance(v, Tok) and isinstance(idx, BV) and idx.known():
+            # an element of a container this analysis knows nothing about (reached after the program's own length test or bounds
+            # check): an opaque value of the element type, the same one for the same position
+            ti = self.tyinfo(v.ty) if v.ty else None
+            ety = None
+            if ti and ti.get('k') in ('array', 'slice'):
+                ety = ti.get('of')
+            elif ti and ti.get('targs'):
+                ety = ti['targs'][0]
+            return self.fresh_value('%s[%d]' % (v.name, idx.uval()), ety)
         raise Undecided('index of %r' % (v,))
 
     def update(self, v, path, new):
@@ -1359,6 +1369,11 @@ class Interp(object):
                     tgt = None
                 if isinstance(tgt, Seq) and tgt.concrete():
                     return BV.const(len(tgt.items), 64)
+                if isinstance(tgt, Seq):
+                    lo = sum(1 for it in tgt.items if it[0] == 'elem')
+                    return Term('len', (tgt,), 64, lo, lo + 64 * sum(1 for it in tgt.items if it[0] != 'elem'))
+                if tgt is not None and not isinstance(tgt, (BV, Ref)):
+                    return Term('len', (tgt,), 64)          # length of a slice whose contents are unknown
             return self.unop(rv['op'], a)
         if k == 'cast':
             return self.cast(rv['ck'], self.operand(st, fr, rv['o']), rv['ty'])
@@ -1401,7 +1416,7 @@ class Interp(object):
             self.deadline = None
         return ret, st
 
-    def call_local(self, fname, args, st):
+    def call_local(self, fname, args, st, targs=None):
         if fname in self.overrides:
             return self.overrides[fname](self, st, args)
         f = self.fns[fname]
@@ -1409,13 +1424,14 @@ class Interp(object):
         memo_key = None
         if not any(self.has_mut_ref(a) for a in args):
             try:
-                memo_key = (fname, tuple(self.snapshot(st, a) for a in args), tuple(id(c) for c in st.pc))
+                memo_key = (fname, tuple(targs or ()), tuple(self.snapshot(st, a) for a in args), tuple(id(c) for c in st.pc))
                 hit = self.memo.get(memo_key)
                 if hit is not None:
                     return hit, st
             except Undecided:
                 memo_key = None
         fr = Frame(next(self.frame_counter), fname, f, False)
+        fr.targs = targs
         if len(args) != f['argc']:
             raise Undecided('arity mismatch calling %s: %d vs %d' % (fname, len(args), f['argc']))
         for i, a in enumerate(args):
@@ -2028,6 +2044,13 @@ class Interp(object):
     # ------------------------------------------------------------------ calls
     def do_call(self, st, fr, t):
         res = t.get('res')
+        if res and getattr(fr, 'targs', None) and '/#' in (res.get('args') or ''):
+            # inside an instance of a generic local function: `T/#0` in a callee's type arguments is this instance's argument
+            sub = _subst_targs(res['args'], fr.targs)
+            if sub != res['args']:
+                t = dict(t)
+                res = dict(res, args=sub)
+                t['res'] = res
         path = (res or {}).get('path') or (t['f'].get('path') if t['f'].get('k') == 'fn' else None)
         args = [self.operand(st, fr, a) for a in t['a']]
         if path is None:
@@ -2072,7 +2095,10 @@ class Interp(object):
                     and args[1].ty in ('tuple', '()') and self.fns[path]['argc'] == 1 + len(args[1].fields):
                 # direct call of a closure: the caller passes (closure, (args,)); the body takes them spread
                 args = [args[0]] + list(args[1].fields)
-            ret, st2 = self.call_local(path, args, st)
+            ct = None
+            if self.fns[path].get('generic') and res and res.get('args') and '/#' not in res['args']:
+                ct = _split_targs(res['args'])
+            ret, st2 = self.call_local(path, args, st, targs=ct)
         else:
             h = self.summaries.get(path)
             if h is None and res and res.get('trait'):
@@ -2149,10 +2175,40 @@ class Interp(object):
         raise Undecided('call of non-closure %r' % (clo,))
 
 
+def _split_targs(s):
+    """'[a, b<c, d>, e]' -> ['a', 'b<c, d>', 'e']"""
+    s = s.strip()
+    if s.startswith('[') and s.endswith(']'):
+        s = s[1:-1]
+    out, depth, cur = [], 0, ''
+    for ch in s:
+        if ch in '<([':
+            depth += 1
+        elif ch in '>)]':
+            depth -= 1
+        if ch == ',' and depth == 0:
+            out.append(cur.strip())
+            cur = ''
+        else:
+            cur += ch
+    if cur.strip():
+        out.append(cur.strip())
+    return out
+
+
+def _subst_targs(args, targs):
+    import re
+    def rep(m):
+        k = int(m.group(1))
+        return targs[k] if k < len(targs) else m.group(0)
+    return re.sub(r'[A-Za-z_][A-Za-z0-9_]*/#(\d+)', rep, args)
+
+
 class Frame(object):
-    __slots__ = ('id', 'fname', 'fn', 'is_promoted', 'escapes', 'no_bit_loop')
+    __slots__ = ('id', 'fname', 'fn', 'is_promoted', 'escapes', 'no_bit_loop', 'targs')
 
     def __init__(self, id_, fname, fn, is_promoted):
         self.id, self.fname, self.fn, self.is_promoted = id_, fname, fn, is_promoted
         self.escapes = []
         self.no_bit_loop = False
+        self.targs = None         # type arguments of this instance of a generic local function (strings), if known
